@@ -161,9 +161,11 @@ inline std::vector<pixman_fixed_t> make_kernel(const SImg &d) {
       t[i] = mx.range(d.kneg ? -30000 : 0, 60000);
       sum += t[i];
     }
-    if (sum == 0) {
-      t[0] += 65536;
-      sum = 65536;
+    // keep the coefficients sane (|f| of a few units at most): the fetchers accumulate 8-bit pixel * 16.16 coefficient in
+    // 32 bits, so kernels whose absolute sum exceeds 128.0 are outside what the implementation can represent
+    while (sum < 40000) {
+      t[n / 2] += 65536;
+      sum += 65536;
     }
     int64_t acc = 0;
     for (int i = 0; i < n; i++) {
